@@ -61,6 +61,14 @@ SOURCE_OBLIGATIONS = [
     "JanetModel.Props.C06.no_lost_wakeup_partial",
 ]
 SOURCE_CHECKS = ["JanetModel.Props.C06.current_source_checks"]
+# garbage collection of queued values: obligations on the walks of janet_chanat_mark / janet_chanat_mark_fq as extracted
+MARK_OBLIGATIONS = [
+    "JanetModel.Props.C06.current_mark_walks",
+    "JanetModel.Props.C06.mark_visits_exactly_queued",
+    "JanetModel.Props.C06.take_never_dangling",
+    "JanetModel.Props.C06.queued_value_survives_collection",
+    "JanetModel.Props.C06.short_walk_hands_out_freed_value",
+]
 ENV = dict(os.environ, ASAN_OPTIONS="detect_leaks=0:abort_on_error=0", UBSAN_OPTIONS="print_stacktrace=1")
 NPROC = int(os.environ.get("VERIF_JOBS", "16"))
 LAST_STDOUT_TAIL = {}
@@ -352,6 +360,7 @@ def run(ctx, only=None):
     b = ctx.obligations("JanetModel.Props.C06", THEOREMS)
     b += ctx.obligations("JanetModel.Ev.SourceObligations", SOURCE_OBLIGATIONS)
     b += ctx.obligations("JanetModel.Ev.SourceChecks", SOURCE_CHECKS)
+    b += ctx.obligations("JanetModel.Ev.MarkSource", MARK_OBLIGATIONS)
     broken += b
     if b:
         ctx.say("broken obligations: %s" % "; ".join(x[:160] for x in b[:4]))
@@ -396,7 +405,7 @@ def run(ctx, only=None):
             broken.append("correspondence model/implementation: %d of %d event logs differ, first: %s" % (len(diffs), len(items), diffs[0]["program"]))
             ctx.broken.append(broken[-1])
     # ring buffers
-    qdiff = []
+    qdiff, mdiff = [], []
     if exe and hx:
         scripts = queue_scripts(ctx, 300 if quick else 20000)
         rc, out, err = run_cmd([hx], input=("".join("Q %s\n" % s for s in scripts)).encode(), timeout=600, env=ENV)
@@ -431,8 +440,41 @@ def run(ctx, only=None):
                     break
             if bad:
                 nviol_kinds.setdefault("queue", []).append({"script": s, "why": bad, "impl": a})
+        # mark scripts: the same ops on the items ring of a real channel holding fresh heap strings; after every op the real
+        # gcmark callback runs and the set of marked ids is compared (a) with the walk extracted from the source, evaluated
+        # by the model driver, (b) directly with the reference content of the ring (independent of the model)
+        mscripts = [sc for sc in scripts if len(sc.split()) <= 4000]
+        rc, out, err = run_cmd([hx], input=("".join("M %s\n" % sc for sc in mscripts)).encode(), timeout=600, env=ENV)
+        impl_m = out.decode(errors="replace").splitlines()
+        model_m = ctx.model(["M " + sc for sc in mscripts], exe=exe)
+        if rc != 0 or len(impl_m) != len(mscripts):
+            crashes.append({"queue_scripts": True, "mark_scripts": True, "rc": rc, "stderr": err.decode(errors="replace")[-2000:]})
+        nmark = 0
+        for sc, a, m in zip(mscripts, impl_m, model_m):
+            if a != m:
+                mdiff.append({"script": sc, "impl": a, "model": m})
+            ref, bad = [], None
+            for op, st in zip(sc.split(), a.split(" ")):
+                if op[0] == "p":
+                    ref.append(int(op[1:]))
+                elif op[0] == "h":
+                    ref.insert(0, int(op[1:]))
+                elif ref:
+                    ref.pop(0)
+                nmark += 1
+                got = [int(x) for x in st.strip("[]").split(",") if x]
+                if got != sorted(ref):
+                    bad = "after %s the channel's mark function marked %r, the queue holds %r (unmarked queued values: %r)" % (
+                        op, got, ref, sorted(set(ref) - set(got)))
+                    break
+            if bad:
+                nviol_kinds.setdefault("mark", []).append({"script": sc, "why": bad, "impl": a})
+        if mdiff:
+            broken.append("correspondence janet_chanat_mark walk: %d scripts differ, first %r" % (len(mdiff), mdiff[0]["script"][:80]))
+            ctx.broken.append(broken[-1])
     else:
         nq = 0
+        nmark = 0
     # (E) direct oracle on the implementation logs
     failing = []
     selfmatch_anomalies = 0
@@ -477,6 +519,12 @@ def run(ctx, only=None):
         q = nviol_kinds["queue"][0]
         ctx.violation("queue:" + q["why"][:40], {"kind": "queue", "detail": q}, what="janet_q_* ring buffer does not behave as a FIFO list: " + q["why"])
         reported += 1
+    if "mark" in nviol_kinds:
+        q = min(nviol_kinds["mark"], key=lambda x: len(x["script"]))
+        ctx.violation("mark:queued-value-not-marked", {"kind": "mark", "detail": q, "failing_scripts": len(nviol_kinds["mark"])},
+                      what="the channel's gcmark callback does not mark every queued value (a collection would free it while it is "
+                           "queued and a later take hands out a dangling reference): " + q["why"])
+        reported += 1
     # one replay per failure kind: the smallest failing program of that kind, minimised
     by_kind = {}
     for pid, seed, prog, fails in failing:
@@ -484,7 +532,7 @@ def run(ctx, only=None):
         for k, text in fails:
             if k not in by_kind or size < by_kind[k][0]:
                 by_kind[k] = (size, pid, seed, prog, text)
-    for k in sorted(by_kind):
+    for k in sorted(by_kind, key=lambda k: (k != "received-not-given", k)):
         size, pid, seed, prog, text = by_kind[k]
         if k in P.KNOWN_KINDS and ctx._match_known(k) is not None:
             ctx.violation(k, {"kind": k, "program": P.short(prog)}, what=text)   # prints the KNOWN-FINDING line once
@@ -507,7 +555,7 @@ def run(ctx, only=None):
                       what="no longer shown to hold: " + "; ".join(broken)[:700])
     nontrivial = sum(1 for pid, seed, prog in items if pid in results and sum(len(o) for o in prog["fibers"]) >= 2)
     cov = {
-        "evaluations": len(results) + nq,
+        "evaluations": len(results) + nq + nmark,
         "distinct_nontrivial": len(set(P.short(prog) for pid, seed, prog in items)),
         "rule": "a program = channel capacities + per-fiber operation lists (give/take/select/rselect/close/(ev/sleep 0)); exhaustive families "
                 "E<nch>.<total ops> enumerate every shape (<=4 fibers), every operation from the alphabet (selects with <=2 ordered clauses) "
@@ -516,7 +564,7 @@ def run(ctx, only=None):
         "distribution": dist, "programs_with_two_or_more_ops": nontrivial,
         "verdicts": verdicts, "oracle_event_counts": stats_total,
         "correspondence_programs": len(model_out or []), "correspondence_diffs": len(diffs),
-        "queue_ops": nq, "queue_diffs": len(qdiff),
+        "queue_ops": nq, "queue_diffs": len(qdiff), "mark_script_ops": nmark, "mark_script_diffs": len(mdiff),
         "oracle_failing_programs": len(failing), "oracle_failure_kinds": {k: len(v) for k, v in nviol_kinds.items()},
         "selfmatch_select_anomalies": selfmatch_anomalies, "cfg_bits": cfgbits, "broken": broken[:8],
         "ring_geometry": {
